@@ -134,17 +134,19 @@ func c10SenderBinding(c *Ctx) {
 		return
 	}
 	need := map[string]bool{}
-	ssax.Instrs(conv, func(in ssa.Instruction) {
-		if mi, ok := in.(*ssa.MakeInterface); ok {
-			if st, ok := mi.X.Type().Underlying().(*types.Struct); ok {
-				for i := 0; i < st.NumFields(); i++ {
-					if st.Field(i).Name() == "ParticipantId" {
-						need[types.TypeString(mi.X.Type(), nil)] = true
+	for _, cf := range c.moduleClosure(conv) {
+		ssax.Instrs(cf, func(in ssa.Instruction) {
+			if mi, ok := in.(*ssa.MakeInterface); ok {
+				if st, ok := mi.X.Type().Underlying().(*types.Struct); ok {
+					for i := 0; i < st.NumFields(); i++ {
+						if st.Field(i).Name() == "ParticipantId" {
+							need[types.TypeString(mi.X.Type(), nil)] = true
+						}
 					}
 				}
 			}
-		}
-	})
+		})
+	}
 	have := map[string]bool{}
 	ssax.Instrs(helper, func(in ssa.Instruction) {
 		if ta, ok := in.(*ssa.TypeAssert); ok {
@@ -198,7 +200,6 @@ func c10Envelope(c *Ctx) {
 	r.Check(covered["Event"] && covered["DkgRoundID"], "C10/R2", "storage.(*Message).Bytes:covers:Event+DkgRoundID", "the signature covers the event name and the round identifier", c.Pos(fn.Pos()),
 		sprintf("signed bytes = Data only (Event covered=%v, DkgRoundID covered=%v): confirm/decline share one request type, the four DKG error events share one, and any round with the same keys accepts the same bytes — a genuine message copied into another round or re-posted under another event name verifies", covered["Event"], covered["DkgRoundID"]))
 }
-
 
 // c10ReinitConfined: reinitDKG is reached without any signature check (C09 exempts the reinit message, which is confirmed
 // out of band for ITS round). It must not be able to touch another round: the body's dkg_id is tested non-empty and equal
